@@ -14,7 +14,8 @@ Statements are about `exec fails (skeleton features) s` for EVERY failure oracle
                   was called and (`d`: the function has a destination) dest was cleared;
 * `Holds d s r` – all three.
 
-`current` is the tree as it stands, `Fixes` fields switch on the repairs of `fixes/*.diff`; the
+`unrepaired` is the code before any repair, `Fixes` fields switch on the repairs of `fixes/*.diff`
+(`Alloc.current` says which of them the tree contains and is what the driver runs); the
 `*_fixed_C20` theorems are the full statement for the repaired code, the `_partial`/`_witness`
 pairs say what holds of the code as it is and where it breaks (= the known findings).
 -/
@@ -46,9 +47,9 @@ example : ∃ x : FoldFeat, x.fold = true ∧ x.entryErr = false := ⟨⟨false,
 /-- FULL (code as it is): whenever an engine-based printf_s function survives a failed allocation (only the `%ls`
 staging buffer can), it returns a negative value, the handler was called, and (string variants) dest was cleared. -/
 theorem printf_reported (w : Wrap) (entry : Bool) (segs : List Seg) (s : St) :
-    Reported (w != .stream) s (exec fails (printfProg current w entry segs) s) := by
+    Reported (w != .stream) s (exec fails (printfProg unrepaired w entry segs) s) := by
   intro o s' h hlt
-  rcases printf_spec (fails := fails) current w entry segs s with ⟨o1, s1, e1, _, e3⟩ | ⟨e1, _⟩
+  rcases printf_spec (fails := fails) unrepaired w entry segs s with ⟨o1, s1, e1, _, e3⟩ | ⟨e1, _⟩
   · rw [e1] at h; cases h
     have := e3 hlt
     exact ⟨this.1, this.2.1, fun hd => this.2.2 (by simpa using hd)⟩
@@ -58,8 +59,8 @@ theorem printf_reported (w : Wrap) (entry : Bool) (segs : List Seg) (s : St) :
 in which the engine copies the directive to the heap), no failure oracle makes the call fault.
 Full statement (false today, see the witness): `Safe` for every format. -/
 theorem printf_safe_partial (w : Wrap) (entry : Bool) (segs : List Seg) (s : St)
-    (h : ∀ err, Seg.fl true err ∉ segs) : Safe (exec fails (printfProg current w entry segs) s) := by
-  rcases printf_spec (fails := fails) current w entry segs s with ⟨o1, s1, e1, _⟩ | ⟨_, _, _, err, e4⟩
+    (h : ∀ err, Seg.fl true err ∉ segs) : Safe (exec fails (printfProg unrepaired w entry segs) s) := by
+  rcases printf_spec (fails := fails) unrepaired w entry segs s with ⟨o1, s1, e1, _⟩ | ⟨_, _, _, err, e4⟩
   · exact ⟨o1, s1, e1⟩
   · exact absurd e4 (h err)
 
@@ -67,15 +68,15 @@ example : ∀ err, Seg.fl true err ∉ [Seg.plain .none, .ls .none, .fl false fa
 
 /-- WITNESS: `sprintf_s(dest, dmax, "%Lf!", x)` with the format-copy malloc failed dereferences NULL. -/
 theorem printf_safe_witness :
-    ¬ Safe (exec (fun _ => true) (printfProg current .vsn false [.fl true false, .plain .none]) {}) :=
+    ¬ Safe (exec (fun _ => true) (printfProg unrepaired .vsn false [.fl true false, .plain .none]) {}) :=
   not_safe_of_null (by decide)
 
 /-- PARTIAL (code as it is): if no `%ls` argument fails to convert, every return leaves the live blocks as they were.
 Full statement (false today, see the witness): `NoLeak` for every format and argument list. -/
 theorem printf_noleak_partial (w : Wrap) (entry : Bool) (segs : List Seg) (s : St)
-    (h : Seg.ls .conv ∉ segs) : NoLeak s (exec fails (printfProg current w entry segs) s) := by
+    (h : Seg.ls .conv ∉ segs) : NoLeak s (exec fails (printfProg unrepaired w entry segs) s) := by
   intro o s' he
-  rcases printf_spec (fails := fails) current w entry segs s with ⟨o1, s1, e1, e2, _⟩ | ⟨e1, _⟩
+  rcases printf_spec (fails := fails) unrepaired w entry segs s with ⟨o1, s1, e1, e2, _⟩ | ⟨e1, _⟩
   · rw [e1] at he; cases he
     rcases e2 with e2 | ⟨e2, _⟩
     · exact e2
@@ -87,7 +88,7 @@ example : Seg.ls .conv ∉ [Seg.ls .none, .ls .tooLong, .fl true false] := by de
 /-- WITNESS: `sprintf_s(dest, dmax, "%ls", L"")` (wcstombs_s reports an error) returns with the staging buffer
 still allocated although no allocation failed — and with a non-negative return value. -/
 theorem printf_noleak_witness :
-    ¬ NoLeak {} (exec (fun _ => false) (printfProg current .vsn false [.ls .conv]) {}) :=
+    ¬ NoLeak {} (exec (fun _ => false) (printfProg unrepaired .vsn false [.ls .conv]) {}) :=
   not_noleak_of (l := [0]) (by decide) (by decide)
 
 /-- FULL for the repaired engine (fixes/vsnprintf_s-alloc.diff: format copies checked, `%ls` buffer freed and a negative
@@ -121,9 +122,9 @@ theorem wprobe_noleak (fx : Fixes) (f : WFn) (x : WFeat) (s : St) : NoLeak s (ex
 fits, or an entry check fails), cannot fault.  Full statement (false today): `Safe` for all four functions. -/
 theorem wprobe_safe_partial (f : WFn) (x : WFeat) (s : St)
     (h : f = .vsw ∨ x.big = false ∨ x.fits = true ∨ x.entryErr = true) :
-    Safe (exec fails (wprobeProg current f x) s) := by
-  have := wprobe_spec' (fails := fails) current f x s
-  cases he : exec fails (wprobeProg current f x) s with
+    Safe (exec fails (wprobeProg unrepaired f x) s) := by
+  have := wprobe_spec' (fails := fails) unrepaired f x s
+  cases he : exec fails (wprobeProg unrepaired f x) s with
   | ok v => exact ⟨v.1, v.2, rfl⟩
   | error e =>
     rw [he] at this
@@ -138,15 +139,15 @@ example : (WFn.sw = .vsw ∨ (⟨false, false, false, false, .neg⟩ : WFeat).bi
 
 /-- WITNESS: `swprintf_s(dest, 600, L"%ls", <700 chars>)` with the probe malloc failed hands NULL to vswprintf. -/
 theorem wprobe_safe_witness :
-    ¬ Safe (exec (fun _ => true) (wprobeProg current .sw ⟨false, false, false, true, .neg⟩) {}) :=
+    ¬ Safe (exec (fun _ => true) (wprobeProg unrepaired .sw ⟨false, false, false, true, .neg⟩) {}) :=
   not_safe_of_null (by decide)
 
 /-- PARTIAL (code as it is): swprintf_s, snwprintf_s and vsnwprintf_s never survive a failed allocation unreported
 (they do not survive it at all).  Full statement (false today for vswprintf_s, see the witness): `Reported` for all four. -/
 theorem wprobe_reported_partial (f : WFn) (x : WFeat) (s : St) (h : f ≠ .vsw) :
-    Reported true s (exec fails (wprobeProg current f x) s) := by
+    Reported true s (exec fails (wprobeProg unrepaired f x) s) := by
   intro o s' he hlt
-  have := wprobe_spec' (fails := fails) current f x s
+  have := wprobe_spec' (fails := fails) unrepaired f x s
   rw [he] at this
   rcases this.2 hlt with ⟨h1, h2, h3⟩ | ⟨h1, _⟩
   · exact ⟨h1, h2, fun _ => h3⟩
@@ -157,7 +158,7 @@ example : WFn.snw ≠ .vsw := by decide
 /-- WITNESS: vswprintf_s with the probe malloc failed returns an error (failed = true) but with 0 handler calls and
 dest not cleared. -/
 theorem wprobe_reported_witness :
-    verdict (exec (fun _ => true) (wprobeProg current .vsw ⟨false, false, false, true, .neg⟩) {}) = some (true, 0, false, 1) := by
+    verdict (exec (fun _ => true) (wprobeProg unrepaired .vsw ⟨false, false, false, true, .neg⟩) {}) = some (true, 0, false, 1) := by
   decide
 
 /-- FULL for the repaired probes (fixes/wprintf-probe-alloc.diff): all four wide printf_s functions, every feature vector, every
@@ -196,8 +197,8 @@ theorem reorder_fixed_C20 (fx : Fixes) (h : fx.reorder = true) (dmax : Nat) (cel
 /-- PARTIAL (code as it is): when no allocation request fails the call does not fault, for every mark pattern and
 dmax.  Full statement (false today, see the witness): `Safe` under every oracle. -/
 theorem reorder_safe_partial (hnf : NoFail fails) (dmax : Nat) (cells : List Bool) (s : St) :
-    Safe (exec fails (reorderProg current .caller dmax cells) s) := by
-  have := (wp_iff _ _ _).1 (reorderProg_wp (fails := fails) (L := s.live) current .caller dmax cells s (Or.inr hnf) rfl trivial)
+    Safe (exec fails (reorderProg unrepaired .caller dmax cells) s) := by
+  have := (wp_iff _ _ _).1 (reorderProg_wp (fails := fails) (L := s.live) unrepaired .caller dmax cells s (Or.inr hnf) rfl trivial)
   obtain ⟨o, s', he, _⟩ := this
   exact ⟨o, s', he⟩
 
@@ -205,15 +206,15 @@ example : NoFail (fun _ => false) := fun _ => rfl
 
 /-- WITNESS: a starter followed by 11 combining marks, the malloc for the 11th refused: memcpy through NULL. -/
 theorem reorder_safe_witness :
-    ¬ Safe (exec (fun _ => true) (reorderProg current .caller 64 (false :: List.replicate 11 true)) {}) :=
+    ¬ Safe (exec (fun _ => true) (reorderProg unrepaired .caller 64 (false :: List.replicate 11 true)) {}) :=
   not_safe_of_null (by decide +kernel)
 
 /-- PARTIAL (code as it is, no request failing): a call that returns success leaves no block behind.
 Full statement (false today, see the witness): `NoLeak` on every return. -/
 theorem reorder_noleak_partial (hnf : NoFail fails) (dmax : Nat) (cells : List Bool) (s s' : St) (o : Out)
-    (he : exec fails (reorderProg current .caller dmax cells) s = .ok (o, s')) (hok : o.failed = false) :
+    (he : exec fails (reorderProg unrepaired .caller dmax cells) s = .ok (o, s')) (hok : o.failed = false) :
     s'.live = s.live := by
-  have := (wp_iff _ _ _).1 (reorderProg_wp (fails := fails) (L := s.live) current .caller dmax cells s (Or.inr hnf) rfl trivial)
+  have := (wp_iff _ _ _).1 (reorderProg_wp (fails := fails) (L := s.live) unrepaired .caller dmax cells s (Or.inr hnf) rfl trivial)
   obtain ⟨o1, s1, he1, p1, _⟩ := this
   rw [he] at he1; cases he1
   exact p1 hok
@@ -221,7 +222,7 @@ theorem reorder_noleak_partial (hnf : NoFail fails) (dmax : Nat) (cells : List B
 /-- WITNESS: 12 marks on one starter into dmax = 13: the "dmax too small" exit returns ESNOSPC with seq_ext still
 allocated; no allocation failed. -/
 theorem reorder_noleak_witness :
-    ¬ NoLeak {} (exec (fun _ => false) (reorderProg current .caller 13 (false :: List.replicate 12 true)) {}) :=
+    ¬ NoLeak {} (exec (fun _ => false) (reorderProg unrepaired .caller 13 (false :: List.replicate 12 true)) {}) :=
   not_noleak_of (l := [0]) (by decide +kernel) (by decide)
 
 /-! ### wcsnorm_compose_s -/
@@ -239,29 +240,29 @@ theorem compose_fixed_C20 (fx : Fixes) (h : fx.compose = true) (dmax : Nat) (cel
 
 /-- PARTIAL (code as it is): no fault when no allocation request fails.  Full statement false today (witness). -/
 theorem compose_safe_partial (hnf : NoFail fails) (dmax : Nat) (cells : List CCell) (s : St) :
-    Safe (exec fails (composeProg current .caller .caller dmax cells) s) := by
-  have := (wp_iff _ _ _).1 (composeProg_wp (fails := fails) (L := s.live) current .caller .caller dmax cells s (Or.inr hnf) rfl trivial trivial)
+    Safe (exec fails (composeProg unrepaired .caller .caller dmax cells) s) := by
+  have := (wp_iff _ _ _).1 (composeProg_wp (fails := fails) (L := s.live) unrepaired .caller .caller dmax cells s (Or.inr hnf) rfl trivial trivial)
   obtain ⟨o, s', he, _⟩ := this
   exact ⟨o, s', he⟩
 
 /-- WITNESS: a starter with 16 uncomposable marks, the realloc for the 16th refused: the old block is lost and the
 next store goes through NULL. -/
 theorem compose_safe_witness :
-    ¬ Safe (exec (fun i => i == 1) (composeProg current .caller .caller 64 (⟨false, false⟩ :: List.replicate 16 ⟨true, false⟩)) {}) :=
+    ¬ Safe (exec (fun i => i == 1) (composeProg unrepaired .caller .caller 64 (⟨false, false⟩ :: List.replicate 16 ⟨true, false⟩)) {}) :=
   not_safe_of_null (by decide +kernel)
 
 /-- PARTIAL (code as it is, no request failing): a successful return leaves no block behind.  Full statement false today. -/
 theorem compose_noleak_partial (hnf : NoFail fails) (dmax : Nat) (cells : List CCell) (s s' : St) (o : Out)
-    (he : exec fails (composeProg current .caller .caller dmax cells) s = .ok (o, s')) (hok : o.failed = false) :
+    (he : exec fails (composeProg unrepaired .caller .caller dmax cells) s = .ok (o, s')) (hok : o.failed = false) :
     s'.live = s.live := by
-  have := (wp_iff _ _ _).1 (composeProg_wp (fails := fails) (L := s.live) current .caller .caller dmax cells s (Or.inr hnf) rfl trivial trivial)
+  have := (wp_iff _ _ _).1 (composeProg_wp (fails := fails) (L := s.live) unrepaired .caller .caller dmax cells s (Or.inr hnf) rfl trivial trivial)
   obtain ⟨o1, s1, he1, p1, _⟩ := this
   rw [he] at he1; cases he1
   exact p1 hok
 
 /-- WITNESS: a starter with 12 uncomposable marks into dmax = 1: the ESNOSPC exit behind the starter leaks seq_ext. -/
 theorem compose_noleak_witness :
-    ¬ NoLeak {} (exec (fun _ => false) (composeProg current .caller .caller 1 (⟨false, false⟩ :: List.replicate 12 ⟨true, false⟩)) {}) :=
+    ¬ NoLeak {} (exec (fun _ => false) (composeProg unrepaired .caller .caller 1 (⟨false, false⟩ :: List.replicate 12 ⟨true, false⟩)) {}) :=
   not_noleak_of (l := [0]) (by decide +kernel) (by decide)
 
 /-! ### wcsnorm_s -/
@@ -281,29 +282,29 @@ theorem norm_fixed_C20 (fx : Fixes) (h1 : fx.normtmp = true) (h2 : fx.reorder = 
     have := p3 hlt; exact ⟨this.1, this.2.1, fun _ => this.2.2⟩
 
 /-- PARTIAL (code as it is): no fault when no allocation request fails.  Full statement false today (witness). -/
-theorem norm_safe_partial (hnf : NoFail fails) (x : NormFeat) (s : St) : Safe (exec fails (normProg current x) s) := by
-  have := (wp_iff _ _ _).1 (normProg_wp (fails := fails) current x s (Or.inr hnf))
+theorem norm_safe_partial (hnf : NoFail fails) (x : NormFeat) (s : St) : Safe (exec fails (normProg unrepaired x) s) := by
+  have := (wp_iff _ _ _).1 (normProg_wp (fails := fails) unrepaired x s (Or.inr hnf))
   obtain ⟨o, s', he, _⟩ := this
   exact ⟨o, s', he⟩
 
 /-- WITNESS: a text of 126 starters (scratch of 128 cells from malloc), the malloc refused: the reorder step writes
 through NULL. -/
 theorem norm_safe_witness :
-    ¬ Safe (exec (fun _ => true) (normProg current ⟨false, .nfc, 200, 126, List.replicate 126 false, List.replicate 126 ⟨false, false⟩⟩) {}) :=
+    ¬ Safe (exec (fun _ => true) (normProg unrepaired ⟨false, .nfc, 200, 126, List.replicate 126 false, List.replicate 126 ⟨false, false⟩⟩) {}) :=
   not_safe_of_null (by decide +kernel)
 
 /-- PARTIAL (code as it is, no request failing): a successful wcsnorm_s leaves no block behind (scratch and both
 sequence extensions released).  The full statement needs the repaired reorder/compose exits (`norm_fixed_C20`). -/
 theorem norm_noleak_partial (hnf : NoFail fails) (x : NormFeat) (s s' : St) (o : Out)
-    (he : exec fails (normProg current x) s = .ok (o, s')) (hok : o.failed = false) : s'.live = s.live := by
-  have := (wp_iff _ _ _).1 (normProg_wp (fails := fails) current x s (Or.inr hnf))
+    (he : exec fails (normProg unrepaired x) s = .ok (o, s')) (hok : o.failed = false) : s'.live = s.live := by
+  have := (wp_iff _ _ _).1 (normProg_wp (fails := fails) unrepaired x s (Or.inr hnf))
   obtain ⟨o1, s1, he1, p1, _⟩ := this
   rw [he] at he1; cases he1
   exact p1 hok
 
 /-- non-vacuity: such a run exists (126 starters, scratch from malloc, success, nothing left allocated) -/
-example : verdict (exec (fun _ => false) (normProg current ⟨false, .nfc, 200, 126, List.replicate 126 false, List.replicate 126 ⟨false, false⟩⟩) {}) = some (false, 0, false, 0) ∧
-    liveAtReturn (exec (fun _ => false) (normProg current ⟨false, .nfc, 200, 126, List.replicate 126 false, List.replicate 126 ⟨false, false⟩⟩) {}) = some [] := by
+example : verdict (exec (fun _ => false) (normProg unrepaired ⟨false, .nfc, 200, 126, List.replicate 126 false, List.replicate 126 ⟨false, false⟩⟩) {}) = some (false, 0, false, 0) ∧
+    liveAtReturn (exec (fun _ => false) (normProg unrepaired ⟨false, .nfc, 200, 126, List.replicate 126 false, List.replicate 126 ⟨false, false⟩⟩) {}) = some [] := by
   constructor <;> decide +kernel
 
 end SafeC.Props.C20
